@@ -17,7 +17,7 @@ pub fn property() -> Property {
         parts: vec![
             Part {
                 name: "strings",
-                quick: 1_500,
+                quick: 2_500,
                 thorough: 4_000,
                 single_shard: false, supplementary: false,
                 run: |cfg| {
@@ -36,7 +36,7 @@ pub fn property() -> Property {
             },
             Part {
                 name: "lists",
-                quick: 6_000,
+                quick: 20_000,
                 thorough: 300_000,
                 single_shard: false, supplementary: false,
                 run: |cfg| run_part(cfg, (gen::raw_playout(30), any::<u16>(), any::<u16>(), 0..8u8), |(r, at, pick, kind)| list_case(r, *at, *pick, *kind), check_list),
@@ -44,7 +44,7 @@ pub fn property() -> Property {
             },
             Part {
                 name: "stateful",
-                quick: 3_000,
+                quick: 10_000,
                 thorough: 150_000,
                 single_shard: false, supplementary: false,
                 run: |cfg| run_part(cfg, (gen::raw_pos(40), proptest::collection::vec((0..6u8, any::<u16>(), any::<u16>()), 1..25)), |(r, ops)| StatefulCase { fen: gen::position(r, ClockDomain::Unmake).fen(), ops: ops.clone() }, check_stateful),
